@@ -1659,3 +1659,27 @@ package query
 //@   abstract *
 //@   ownwrites E:parser.QueryExpression#
 //@   modifies *
+
+// C04: what goes into a comparison key. Texts are escaped (the key separator must not occur bare inside a text: two
+// different lists of values would share a key), and the negative zero is given the key of zero in the normalising
+// encoder. Strings are uninterpreted in this engine, so the contracts state that the escaping / normalising step is taken
+// (ghost counters) and what normalizeFloatKey computes on the two literals it distinguishes.
+//@ ghost var textsEscaped int
+//@ ghost var floatKeysNormalized int
+//@ func escapeKeyText
+//@   trusted assumed: returns the text with ':' and '\' escaped (injective; texts without them are returned unchanged)
+//@   ghostset textsEscaped = textsEscaped + 1
+//@   modifies textsEscaped
+//@ func serializeString
+//@   property C04
+//@   ensures [text-is-escaped-before-it-enters-the-key] textsEscaped == old(textsEscaped) + 1
+//@   modifies textsEscaped
+//@ func serializeCaseSensitiveString
+//@   property C04
+//@   ensures [text-is-escaped-before-it-enters-the-key] textsEscaped == old(textsEscaped) + 1
+//@   modifies textsEscaped
+//@ func normalizeFloatKey
+//@   property C04
+//@   ghostset floatKeysNormalized = floatKeysNormalized + 1
+//@   ensures [negative-zero-gets-the-key-of-zero] (s == "-0" ==> result == "0") && (s != "-0" ==> result == s)
+//@   modifies floatKeysNormalized
